@@ -14,7 +14,7 @@ Parts    == {"none", "one", "two"}
 Rows     == {"default", "one", "all"}
 Skips    == {"default", "past", "next", "first", "last"}
 Withins  == {"none", "quoted", "quotedfrac", "intsec", "fracsec", "fracmin", "ms", "fracms", "hours", "fracshort"}
-Patterns == {"seq", "quant", "alt"}
+Patterns == {"seq", "quant", "alt", "reluct"}      \* reluct: reluctant quantifiers *? +? ?? {n,m}? (the ? is a token of its own: blanks before it are layout)
 Subsets  == {"none", "one"}
 
 VARIABLES part, rows, skip, within, pat, subset
